@@ -174,3 +174,58 @@ func specialKindCases(g *Gen, hostile, withSafeMessager bool) []*Case {
 	}
 	return cases
 }
+
+// emptyTextCases: layers whose own text, or whose cause's text, is empty (a leaf New(""), a foreign
+// wrapper that replaces a non-empty cause's message by ""): outside the "regular text" the
+// transport model is about, so judged by the direct oracles only (C02: identity, C04: unknowing
+// processes).
+func emptyTextCases(prop string, g *Gen) []*Case {
+	type shape struct {
+		name string
+		mk   func() error
+		near func() error // a near-equal error that must not start matching
+	}
+	shapes := []shape{
+		{"silent-wrapper", func() error { return &UWrapC{"", errors.New("boom")} }, func() error { return &UWrapC{"boom", errors.New("boom")} }},
+		{"wrap(silent-wrapper)", func() error { return errors.Wrap(&UWrapC{"", errors.New("boom")}, "ctx") },
+			func() error { return errors.Wrap(&UWrapC{"boom", errors.New("boom")}, "ctx") }},
+		{"withmessage(empty leaf)", func() error { return errors.WithMessage(errors.New(""), "only") }, func() error { return errors.WithMessage(errors.New("only"), "") }},
+		{"wrap(withmessage(empty leaf))", func() error { return errors.Wrap(errors.WithMessage(errors.New(""), "inner"), "outer") },
+			func() error { return errors.Wrap(errors.WithMessage(errors.New("inner"), ""), "outer") }},
+		// (not included: a foreign "prefix: cause" wrapper over an empty-text cause, and a Join with an
+		// empty branch: there the text at an unknowing process differs on the unchanged tree, an
+		// observation outside the properties' "regular text = non-empty"; see DESIGN 14.3)
+	}
+	var cases []*Case
+	n := 0
+	for _, sh := range shapes {
+		var e error
+		if ok, _ := catch(func() { e = sh.mk() }); !ok || e == nil {
+			continue
+		}
+		rec := &R{Op: "special:emptytext:" + sh.name}
+		switch prop {
+		case "C04":
+			fams := familiesOf(e)
+			for _, u := range subsets(fams, g.rng, len(fams) <= 6, 8) {
+				c := &Case{ID: fmt.Sprintf("emptytext%d", n), Err: e, NoModel: true, Rec: rec, Tags: u}
+				c.Cmd = L(Sym("special"), Str("emptytext"), Str(sh.name), Strs(u))
+				c.Real = obsCase4(e, u)
+				n++
+				cases = append(cases, c)
+			}
+		default:
+			var refs []error
+			refs = append(refs, nodesOfErr(e, nil)...)
+			if ok, _ := catch(func() { refs = append(refs, sh.mk(), sh.near()) }); !ok {
+				continue
+			}
+			c := &Case{ID: fmt.Sprintf("emptytext%d", n), Err: e, Refs: refs, RefRecs: make([]*R, len(refs)), NoModel: true, Rec: rec}
+			c.Cmd = L(Sym("special"), Str("emptytext"), Str(sh.name))
+			c.Real = L(Sym("res"), L(Sym("special")))
+			n++
+			cases = append(cases, c)
+		}
+	}
+	return cases
+}
